@@ -434,7 +434,7 @@ def r5_in_memory(facts, rep):
     cfg = body.cfg
     pm = in_mem_param(body)
     psw = param_bool_switches(body, pm) if pm else []
-    rep.floor("C15-R5", "switches on in_memory", len(psw), 2)
+    rep.floor("C15-R5", "switches on in_memory", len(psw), 1)
     for name in ("db::open_index", "config::Config::write_meta"):
         for bid, t, sp, _ in flow.calls_named(body, lambda n, c=name: n == c):
             good = any(f is not None and bid in cfg.blocks_only_via_edge(sw, f) for sw, f, tr in psw)
